@@ -426,12 +426,23 @@ class HTTP1Connection(httputil.HTTPConnection):
                 and self._disconnect_on_finish
             ):
                 headers["Connection"] = "close"
-            # If a 1.0 client asked for keep-alive, add the header.
-            if (
-                self._request_start_line.version == "HTTP/1.0"
-                and self._request_headers.get("Connection", "").lower() == "keep-alive"
-            ):
-                headers["Connection"] = "Keep-Alive"
+            if self._request_start_line.version == "HTTP/1.0":
+                # Without chunked encoding, a body with no Content-Length
+                # can only be delimited by closing the connection.
+                if (
+                    "Content-Length" not in headers
+                    and self._request_start_line.method != "HEAD"
+                    and start_line.code not in (204, 304)
+                    and (start_line.code < 100 or start_line.code >= 200)
+                ):
+                    self._disconnect_on_finish = True
+                # If a 1.0 client asked for keep-alive, add the header
+                # (unless the connection is going to be closed anyway).
+                if (
+                    self._request_headers.get("Connection", "").lower() == "keep-alive"
+                    and not self._disconnect_on_finish
+                ):
+                    headers["Connection"] = "Keep-Alive"
         if self._chunking_output:
             headers["Transfer-Encoding"] = "chunked"
         if not self.is_client and (
